@@ -20,6 +20,7 @@ from dataclasses import dataclass, field
 from typing import Callable, Any
 from enum import Enum
 from datetime import datetime, timedelta
+import itertools
 import threading
 import time
 
@@ -116,6 +117,8 @@ class ATP_Store:
     STARVING_THRESHOLD = 0.1    # Below 10% = starving
     FEASTING_THRESHOLD = 0.9    # Above 90% = feasting
 
+    _lock_ranks = itertools.count()
+
     def __init__(
         self,
         budget: int,
@@ -158,7 +161,8 @@ class ATP_Store:
         self._state = MetabolicState.NORMAL
         self._last_regeneration = datetime.now()
         self._transactions: list[EnergyTransaction] = []
-        self._lock = threading.Lock()
+        self._lock = threading.RLock()  # re-entrant: transfer_to credits the peer while holding its lock
+        self._lock_rank = next(ATP_Store._lock_ranks)  # global lock order for two-store operations
 
         # Statistics
         self._total_consumed = 0
@@ -331,7 +335,11 @@ class ATP_Store:
 
         Enables energy sharing between agents in a colony.
         """
-        with self._lock:
+        # Debit and credit are one atomic step: both stores stay locked for the whole
+        # transfer. The locks are always taken in the same global order, so transfers
+        # in opposite directions cannot deadlock.
+        first, second = (self, other) if self._lock_rank <= other._lock_rank else (other, self)
+        with first._lock, second._lock:
             if energy_type == EnergyType.ATP:
                 if self.atp < amount:
                     return False
@@ -345,7 +353,7 @@ class ATP_Store:
                     return False
                 self.nadh -= amount
 
-        other.regenerate(amount, energy_type)
+            other.regenerate(amount, energy_type)
 
         if not self.silent:
             print(f"🔀 [Metabolism] Transferred {amount} {energy_type.value}")
